@@ -494,8 +494,8 @@ Definition run_from (rss : list rung_system) (md : mode) (ops : list op) : resul
    not promote (_promote_trials_at_rung_complete returns []); the scheduler asks for the best
    entries of the rung below (top_list_for_previous_rung / top_of_previous_rung) and for the trial
    in the parent slot (trial_id_from_parent_slot).  The mutation / cross-over arithmetic of
-   dehb.py is not modelled.  The cache _top_list_of_previous_rung_cache only stores
-   top_list_for_previous_rung of a rung that can no longer change and is left out. *)
+   dehb.py is not modelled.  The cache _top_list_of_previous_rung_cache is modelled further below
+   (top_of_previous_rung_cached) and proved to be transparent. *)
 
 Definition dehb_new_bracket (rs : rung_system) (m : mode) : bracket :=
   mkB m 0 0 (map (fun x => Filled (repeat (None, None) (fst x)) (snd x)) rs).
@@ -769,3 +769,48 @@ Definition read_trial_info (r : result tid) : result Z :=
   | Ok None => Error EKeyNone
   | Error e => Error e
   end.
+
+(* ---- top_of_previous_rung with its cache ---------------------------------------------------
+   self._top_list_of_previous_rung_cache maps (bracket_id, rung_index) — rung_index = the bracket's
+   current rung at the time of the call — to the top list computed then.  The cache is written
+   before the list is indexed.  Result: the cache afterwards and the answer (or the exception). *)
+Definition tcache := list ((nat * nat) * list tid).
+Fixpoint cache_get (k : nat * nat) (c : tcache) : option (list tid) :=
+  match c with
+  | [] => None
+  | (k', v) :: r => if Nat.eqb (fst k) (fst k') && Nat.eqb (snd k) (snd k') then Some v else cache_get k r
+  end.
+Definition index_top (top : list tid) (pos : nat) : result tid :=
+  match nth_error top pos with Some t => Ok t | None => Error EInternal end.
+Definition top_of_previous_rung_cached (m : mgr) (c : tcache) (bid pos : nat) : tcache * result tid :=
+  match nth_error (m_brackets m) bid with
+  | None => (c, Error EInternal)
+  | Some b =>
+      let key := (bid, current_rung b) in
+      match cache_get key c with
+      | Some top => (c, index_top top pos)
+      | None =>
+          match top_list_for_previous_rung b with
+          | Error e => (c, Error e)
+          | Ok top => ((key, top) :: c, index_top top pos)
+          end
+      end
+  end.
+
+(* DEHB manager runs with top-list queries in between: DCOp = an event as before, DCTop = a call of
+   top_of_previous_rung(bracket_id, pos) with arbitrary arguments (a failing call leaves everything but
+   possibly the cache as it is) *)
+Inductive dcop := DCOp (o : dop) | DCTop (bid pos : nat).
+Definition dcstep (sc : dstate * tcache) (o : dcop) : result (dstate * tcache) :=
+  match o with
+  | DCOp o' => match dstep (fst sc) o' with Ok st' => Ok (st', snd sc) | Error e => Error e end
+  | DCTop bid pos => Ok (fst sc, fst (top_of_previous_rung_cached (d_mgr (fst sc)) (snd sc) bid pos))
+  end.
+Fixpoint dcrun (sc : dstate * tcache) (ops : list dcop) : result (dstate * tcache) :=
+  match ops with
+  | [] => Ok sc
+  | o :: r => match dcstep sc o with Ok sc' => dcrun sc' r | Error e => Error e end
+  end.
+Definition dcrun_from (first : rung_system) (md : mode) (nb : option nat) (ops : list dcop)
+  : result (dstate * tcache) :=
+  match dehb_mgr_init first md nb with Ok m => dcrun (mkD m [], []) ops | Error e => Error e end.
